@@ -561,7 +561,7 @@ func TestVerifC18Match(t *testing.T) {
 	if c.Quick() {
 		vkRunMatch(c, vkMatchCfg{entryDepth: 3, upperDepth: 2, maxSize: 3, serveAll: 2, serveDepth: 1, qtypes: qtFull, label: "d3u2s3"}, queries, qdepth)
 	} else {
-		vkRunMatch(c, vkMatchCfg{entryDepth: 3, upperDepth: 3, maxSize: 3, serveAll: 2, serveDepth: 4, qtypes: qtFull, label: "d3s3"}, queries, qdepth)
+		vkRunMatch(c, vkMatchCfg{entryDepth: 3, upperDepth: 3, maxSize: 3, serveAll: 2, serveDepth: 3, qtypes: qtFull, label: "d3s3"}, queries, qdepth)
 		vkRunMatch(c, vkMatchCfg{entryDepth: 2, upperDepth: 2, maxSize: 4, serveAll: 0, serveDepth: 2, qtypes: qtFull, label: "d2s4"}, queries, qdepth)
 	}
 	// Exists must also accept the non-FQDN spelling of a name (API callers pass raw path params)
